@@ -36,7 +36,9 @@ for patch in items:
         rows.append((name, prop, p.returncode, len(viol), kinds, len(und), len(chk)))
         flag = "" if (p.returncode == 0 and not viol) else "   <<<<"
         print("%s %s rc=%d viol=%d %s und=%d chk=%d %.0fs%s" % (name, prop, p.returncode, len(viol), kinds, len(und), len(chk), time.time() - t0, flag), flush=True)
-        for l in (viol[:2] + und[:2] + chk[:1]):
+        vb = [v for v in viol if 'bounded-' in v][:1]
+        vc = [v for v in viol if 'bounded-' not in v][:2]
+        for l in (vb + vc + und[:2] + chk[:1]):
             print("      ", l[:240], flush=True)
 shutil.rmtree(scratch, ignore_errors=True)
 json.dump(rows, open("/verif/.work/seeded_eval_%d.json" % os.getpid(), "w"), indent=1)
